@@ -17,6 +17,7 @@
                                                                      read_error_trailing_zeros)
        b = 0 only for dec = 0 or |dec| < 2^-128                      read_zero (read_zero_near_min)
        Overflow only when |dec| exceeds the largest number           read_overflow_spurious
+                                                                     (read_overflow_long_mantissa)
      wid = TRUE: the number was observed after storing it in a double variable (exact
      widening): the type is then inferred (a double whose low four bytes are zero may be
      a widened single or integer).                                           *)
@@ -97,7 +98,9 @@ ReadV(e) ==
     IN  IF ~p.ok THEN "read_fragment"            \* the driver left the modelled fragment (machinery)
         ELSE IF e.k \in {"err", "soft"} THEN
             IF e.code # 6 THEN "read_unexpected_error"
-            ELSE IF ScAbsLe(dec, MbfMax(maxlen)) THEN "read_overflow_spurious"
+            ELSE IF ScAbsLe(dec, MbfMax(maxlen)) THEN
+                \* own clause (open finding): the digit string taken as an integer is itself out of range (>= 2^127)
+                (IF ~Lt(mant, Pow2(127)) THEN "read_overflow_long_mantissa" ELSE "read_overflow_spurious")
             ELSE IF e.k = "soft" THEN
                 IF ~(NumWellFormed(e.b) /\ Len(e.b) # 2) THEN "malformed_event"
                 ELSE IF IsMaxBytes(e.b, p.neg) \/ (e.wid /\ DoubleIsSingle(e.b) /\ IsMaxBytes(From(e.b, 5), p.neg)) THEN "ok"
